@@ -2,20 +2,18 @@
 # usage: selftest/try_patch.sh <patch.diff> <PROP> [PROP...]   (env TIER=quick|thorough)
 # Applies the patch to a scratch copy of /repo's working tree (outside /repo and /verif), runs the
 # given checks against it via VERIF_REPO, prints one line per check, removes the scratch copy.
-# Evidence files and replays written during these runs are restored/removed afterwards.
+# Evidence and replay files of these runs go to a scratch directory (VERIF_OUT), not to /verif.
 set -u
 PATCH="$1"; shift
 HERE="$(cd "$(dirname "$0")/.." && pwd)"
 S="$(mktemp -d /tmp/yarl-mut-XXXXXX)"
-mkdir -p "$S/yarl" && cp /repo/yarl/*.py /repo/yarl/*.pyx /repo/yarl/*.pyi /repo/yarl/py.typed "$S/yarl/" 2>/dev/null
+mkdir -p "$S/yarl" "$S/out" && cp /repo/yarl/*.py /repo/yarl/*.pyx /repo/yarl/*.pyi /repo/yarl/py.typed "$S/yarl/" 2>/dev/null
 ( cd "$S" && git init -q . && git apply --include='yarl/*' "$PATCH" ) || { echo "PATCH DOES NOT APPLY"; rm -rf "$S"; exit 3; }
-BK="$(mktemp -d /tmp/yarl-ev-XXXXXX)"; cp -r "$HERE/evidence" "$BK/" 2>/dev/null
 for P in "$@"; do
   T0=$(date +%s)
-  OUT="$(cd "$HERE" && VERIF_REPO="$S" ./check "$P" --tier "${TIER:-quick}" 2>&1)"; RC=$?
+  OUT="$(cd "$HERE" && VERIF_REPO="$S" VERIF_OUT="$S/out" ./check "$P" --tier "${TIER:-quick}" 2>&1)"; RC=$?
   T1=$(date +%s)
   echo "== $P exit=$RC $((T1-T0))s"
-  echo "$OUT" | grep -E "^(VIOLATION|violation detail|HARNESS)" | cut -c1-600
-  for f in $(echo "$OUT" | sed -n 's/^VIOLATION .*replay=//p'); do rm -f "$f"; done
+  echo "$OUT" | grep -E "^(VIOLATION|violation detail|HARNESS)" | cut -c1-${WIDTH:-600}
 done
-rm -rf "$HERE/evidence" && cp -r "$BK/evidence" "$HERE/evidence"; rm -rf "$BK" "$S"
+rm -rf "$S"
